@@ -377,7 +377,8 @@ def st_steered_hbond(files):
 
     return st.fixed_dictionaries({
         "kind": st.just("steered-hbond"), "file": st.sampled_from(files), "pair": st.integers(0, 10 ** 6),
-        "contact": st.integers(0, 10 ** 6), "what": st.sampled_from(["base", "base", "bph", "br"]),
+        "contact": st.integers(0, 10 ** 6), "what": st.sampled_from(["base", "base", "bph", "br", "angle", "angle", "cistrans"]),
+        "bound": st.sampled_from([50.0, 130.0]),
         "delta": st.sampled_from([1e-5, 1e-4, 1e-3, 1e-2, 0.1]), "side": st.sampled_from([-1, 1]), "swap": st.booleans()})
 
 
@@ -388,6 +389,10 @@ def build_steered_hbond(case, info=None):
     if case.get("swap"):
         i, j = j, i
     rr = {r.idx: r for r in geomref.from_structure3d(s3)}
+    if case["what"] == "cistrans":
+        return _steer_cis_trans(s3, rr, i, j, case, info)
+    if case["what"] == "angle":
+        return _steer_angle(s3, rr, i, j, case, info)
     cand = _atom_pairs(rr[i], rr[j], case["what"])
     if not cand:
         if info is not None:
@@ -409,3 +414,68 @@ def build_steered_hbond(case, info=None):
         return xyz + shift if ri == j else xyz
 
     return rebuild(s3, keep={i, j}, point_fn=pf)
+
+
+def _steer_cis_trans(s3, rr, i, j, case, info):
+    """rotate residue j about the axis through the two glycosidic nitrogens so that |C1'-N..N-C1'| = 90 +- delta"""
+    ri, rj = rr[i], rr[j]
+    n1 = "N9" if ri.letter in ("A", "G") else "N1"
+    n2 = "N9" if rj.letter in ("A", "G") else "N1"
+    if any(a not in ri.atoms for a in ("C1'", n1)) or any(a not in rj.atoms for a in ("C1'", n2)):
+        if info is not None:
+            info["steer_skipped"] = True
+        return rebuild(s3, keep={i, j})
+    t0 = geomref.dihedral_deg(ri.atoms["C1'"], ri.atoms[n1], rj.atoms[n2], rj.atoms["C1'"])
+    axis = rj.atoms[n2] - ri.atoms[n1]
+    if np.isnan(t0) or np.linalg.norm(axis) < 1e-6:
+        if info is not None:
+            info["steer_skipped"] = True
+        return rebuild(s3, keep={i, j})
+    target = (90.0 + case["side"] * case["delta"]) * (1 if t0 >= 0 else -1)
+    origin = rj.atoms[n2]
+    # the dihedral moves by the rotation angle (up to the sign convention): try both senses, keep the one that lands
+    for sense in (1, -1):
+        R = _rot_about(axis / np.linalg.norm(axis), sense * (target - t0))
+        p4 = R @ (rj.atoms["C1'"] - origin) + origin
+        t1 = geomref.dihedral_deg(ri.atoms["C1'"], ri.atoms[n1], rj.atoms[n2], p4)
+        if abs(t1 - target) < 1e-8:
+            if info is not None:
+                info["steered_dihedral"] = target
+            return rebuild(s3, keep={i, j}, point_fn=lambda xyz, r, k, R=R: R @ (xyz - origin) + origin if r == j else xyz)
+    if info is not None:
+        info["steer_skipped"] = True
+    return rebuild(s3, keep={i, j})
+
+
+def _steer_angle(s3, rr, i, j, case, info):
+    """rotate residue i about an axis through its own contact atom, perpendicular to the contact vector and its base
+    normal, so that the angle between that normal and the donor-acceptor vector is 50 (or 130) +- delta; the contact
+    vector itself does not move"""
+    ri, rj = rr[i], rr[j]
+    cand = [p for p in _atom_pairs(ri, rj, "base") if float(np.linalg.norm(ri.atoms[p[0]] - rj.atoms[p[1]])) <= 3.9]
+    nv = geomref.normal(ri)
+    if not cand or nv is None or geomref.normal(rj) is None:
+        if info is not None:
+            info["steer_skipped"] = True
+        return rebuild(s3, keep={i, j})
+    n1, n2 = cand[case["contact"] % len(cand)]
+    v = ri.atoms[n1] - rj.atoms[n2]
+    a0 = geomref.angle_deg(nv, v)
+    axis = np.cross(v, nv)
+    if np.linalg.norm(axis) < 1e-6:
+        if info is not None:
+            info["steer_skipped"] = True
+        return rebuild(s3, keep={i, j})
+    axis = axis / np.linalg.norm(axis)
+    target = case.get("bound", 50.0) + case["side"] * case["delta"]
+    origin = ri.atoms[n1]
+    for sense in (1, -1):
+        R = _rot_about(axis, sense * (target - a0))
+        a1 = geomref.angle_deg(R @ nv, v)
+        if abs(a1 - target) < 1e-8:
+            if info is not None:
+                info["steered_angle"] = (n1, n2, target)
+            return rebuild(s3, keep={i, j}, point_fn=lambda xyz, r, k, R=R: R @ (xyz - origin) + origin if r == i else xyz)
+    if info is not None:
+        info["steer_skipped"] = True
+    return rebuild(s3, keep={i, j})
